@@ -199,9 +199,11 @@ fn subjects() -> Vec<Subject> {
             w.0
         }),
     });
-    // TCPA server flags (whole table, so the checksum is covered too)
-    {
-        let ops: Vec<Op> = vec![
+    // TCPA server flags (whole table, so the checksum is covered too); the two address-taking options once with the
+    // pattern's address space and once with each of system memory, system I/O, PCI configuration space, functional fixed
+    // hardware (an option must set its own bit whatever its argument is)
+    for sp in [None, Some(0u64), Some(1), Some(2), Some(12)] {
+        let mut ops: Vec<Op> = vec![
             Op::new(1, 0, 2),
             Op::new(2, 0, 2),
             Op::new(3, 0, 2),
@@ -213,12 +215,23 @@ fn subjects() -> Vec<Subject> {
             Op::new(0, 0, 2),
             Op::new(7, 0, 2),
         ];
+        if let Some(x) = sp {
+            for o in ops.iter_mut().filter(|o| o.k >= 7) {
+                o.fill = o.fill.with(0, x);
+            }
+        }
         let ops2 = ops.clone();
         let c = Ctor::new(2, 0, 2);
         v.push(Subject {
             exclusive: vec![],
             unjudged: vec![56, 57, 9],
-            name: "tpm2.TpmServer1_2",
+            name: match sp {
+                None => "tpm2.TpmServer1_2",
+                Some(0) => "tpm2.TpmServer1_2[addresses in system memory]",
+                Some(1) => "tpm2.TpmServer1_2[addresses in system I/O]",
+                Some(2) => "tpm2.TpmServer1_2[addresses in PCI configuration space]",
+                _ => "tpm2.TpmServer1_2[addresses in functional fixed hardware]",
+            },
             actions: vec!["active_low", "edge_triggered", "sci_gpe(a)", "sci_gpe(b)", "gsi", "bus_is_pnp", "pci_sbdf", "config_addr", "log_area", "base_addr"],
             real: Box::new(move |s| {
                 let mut t = tpm2::TpmServer1_2::new(c.oem_id(), c.oem_table_id(), c.oem_rev());
